@@ -466,7 +466,7 @@ func init() {
 		Cases: func(tier string, seed uint64) []fw.Case {
 			nr, nv, sorts := int64(40), int64(8), 40
 			if tier == "thorough" {
-				nr, nv, sorts = 600, 60, 600
+				nr, nv, sorts = 3000, 150, 6000
 			}
 			var cs []fw.Case
 			for k := range c10Kinds {
@@ -474,7 +474,7 @@ func init() {
 			}
 			onr, onv := nr, nv
 			if tier == "thorough" {
-				onr, onv = 300, 30
+				onr, onv = 600, 40
 			}
 			cs = append(cs, fw.Case{Kind: "order", Seed: gen.Sub(seed, "c10refs", 0), P: map[string]int64{"nrefs": onr, "nvers": onv}})
 			for i := 0; i < sorts; i++ {
